@@ -27,19 +27,41 @@ def rule(tier):
 
 
 def add_same_name_locals(prog, rng):
-    """Two different TU-local structs with the same name, each used (by pointer) by one function of its TU."""
+    """Two different TU-local structs with the same name, each used (by pointer or by value) by one function of its TU.
+    Either the two have different members, or the same member names and types and the same size and only the member
+    offsets differ (bit-field widths permuted)."""
     name = "s_%s_dup" % prog.nonce
     recs = []
+    same_shape = rng.random() < 0.5
+    by_value = rng.random() < 0.5
+    if same_shape:
+        base = progen.Builtin(rng.choice(["unsigned int", "int", "unsigned long long"]))
+        total = 64 if base.name == "unsigned long long" else 32
+        n = rng.randint(2, 4)
+        cuts = sorted(rng.sample(range(1, total - 1), n - 1))
+        widths = [b - a for a, b in zip([0] + cuts, cuts + [total])]
+        perm = widths[:]
+        for _ in range(8):
+            rng.shuffle(perm)
+            if perm != widths:
+                break
+        tail = [progen.Builtin(rng.choice(progen.BUILTINS)) for _ in range(rng.randint(0, 2))]
     for tu in (0, 1):
         fields = []
-        for k in range(rng.randint(1, 4)):
-            fields.append(progen.Field("d%d_%s_%d" % (tu, prog.nonce, k), progen.Builtin(rng.choice(progen.BUILTINS))))
-        if tu == 1:
-            fields.insert(0, progen.Field("d1_%s_x" % prog.nonce, progen.Builtin("double")))
+        if same_shape:
+            for k, w in enumerate(widths if tu == 0 else perm):
+                fields.append(progen.Field("d_%s_%d" % (prog.nonce, k), base, bits=w))
+            for k, t in enumerate(tail):
+                fields.append(progen.Field("e_%s_%d" % (prog.nonce, k), t))
+        else:
+            for k in range(rng.randint(1, 4)):
+                fields.append(progen.Field("d%d_%s_%d" % (tu, prog.nonce, k), progen.Builtin(rng.choice(progen.BUILTINS))))
+            if tu == 1:
+                fields.insert(0, progen.Field("d1_%s_x" % prog.nonce, progen.Builtin("double")))
         rec = progen.Record("struct", name, fields)
         rec.where = "tu%d" % tu
         prog.types.append(rec)
-        ft = progen.FuncType(progen.Void(), [progen.Pointer(rec)])
+        ft = progen.FuncType(progen.Void(), [rec if by_value else progen.Pointer(rec)])
         f = progen.Function("f_%s_dup%d" % (prog.nonce, tu), ft, ["p"], tu=tu)
         prog.functions.append(f)
         recs.append((rec, f))
@@ -151,14 +173,14 @@ def case(ctx, i):
             continue
         ptid = fnode[0].find("parameter")[0].attrs["type-id"]
         pn = doc.strip_typedefs_node(ptid)
-        if pn is None or pn.tag != "pointer-type-def":
+        if pn is None or pn.tag not in ("pointer-type-def", "class-decl"):
             continue
-        target = doc.strip_typedefs_node(pn.attrs["type-id"])
+        target = pn if pn.tag == "class-decl" else doc.strip_typedefs_node(pn.attrs["type-id"])
         if target is None or target.tag != "class-decl" or target.attrs.get("is-declaration-only") == "yes":
             r.count("dup_struct_decl_only")
             continue
         compare_record(doc, target, rec.key(), dl, r, what + ", same-named TU-local struct reached from " + fn.name, layout.member_paths(rec),
-                       ksfx=":same-name-tu-local-struct")
+                       ksfx=":same-name-tu-local-struct" + ("-by-value" if pn.tag == "class-decl" else ""))
         r.count("same_name_structs_compared")
         nt = True
     if compared == 0:
